@@ -28,6 +28,17 @@ CLAIMED.update({
     "C14": ("exploration", "DESIGN.md 4/C14 (weak fit)", "deterministic simulation: cross-cutting monitor over the event streams of the other profiles", "return value <=> error flag <=> non-empty message after every verify/generate of fault-free runs of the world and claims profiles.", "Only failure causes the simulated worlds reach are covered; the evidence lists them."),
 })
 
+H = "deterministic simulation: seeded operation histories on long-lived objects vs. executable reference models, with the simulated clock and allocator"
+CLAIMED.update({
+    "C07": ("exploration", "DESIGN.md 4/C07", "deterministic simulation: JWKS documents damaged in flight, read through simulated streams (chunking, short reads, EOF/EIO at any byte) and torn scratch files; model on the bytes that reached the parser; ASan/UBSan + live-block accounting + LeakSanitizer batches", "Every entry point (jwks_load, _strn, jwks_create*, _fromfp, _fromfile) with valid keys of every kty whose members are structurally damaged, byte damage, non-JSON and non-object JSON; item count / order / error-or-usable dichotomy checked against the delivered bytes.", "Trusts jansson's json_loadb on the delivered bytes for 'is JSON'; usability is judged through the public accessors only."),
+    "C10": ("exploration", "DESIGN.md 4/C10", H + "; callbacks run at arbitrary simulated instants", "Histories of header/claim set/del, enable_iat, time_offset, setkey (incl. public-only and too-short keys), setcb programs that edit the per-token object or inject keys, clock moves and generates; every token decoded by the strict reference reader and compared with a builder model; builder snapshots before/after generate.", "Trusts the builder model written from the statement and OpenSSL for signature validity."),
+    "C13": ("exploration", "DESIGN.md 4/C13", H + "; fresh-twin oracle", "After every call on a long-lived checker or builder a freshly created identically configured twin gets the same call at the same simulated instant; verdicts (and deterministic tokens) must be equal, configuration must not drift; a quarter of the runs add single allocation faults.", "Twin oracle: a defect that affects fresh and reused objects alike is invisible here (other checks cover it)."),
+    "C15": ("exploration", "DESIGN.md 4/C15", H, "Set/get/del histories of INT/STR/BOOL/JSON with and without replace on builder headers/claims and on the jwt_t inside generate and verify callbacks; return codes, values and the whole-object snapshot compared with a typed-map model after every step; single allocation faults in a quarter of the runs.", "Model stores values as jansson trees; don't-care cells listed in DESIGN."),
+    "C16": ("exploration", "DESIGN.md 4/C16", H + "; loads through faulty streams and torn files; LeakSanitizer batches", "Histories over two keyrings of loads, get, find_bykid, count, free at every position incl. out of range and SIZE_MAX, free_bad, free_all, error clear, recreate; both rings compared with a list model after every step; ASan for use-after-free/double free, live-block and LSan accounting for leaks.", "Generated keys carry a marker member telling the model whether the element is definitely good or definitely bad."),
+    "C17": ("fault_enumeration", "DESIGN.md 4/C17", "deterministic simulation with fault injection: for each sampled scenario every allocator request index fails once (exhaustive sweep per scenario), compared op by op with the fault-free run", "Exhaustive over the allocation index per scenario (thorough adds 'every request from k on'); scenarios (loads of every key type through every entry point, keyring removals, builder/checker configuration, typed values, callbacks, generate, verify; both providers) are sampled. Same result or reported failure; never an abort, a wrong accept or an altered token.", "Two jansson 2.14 dependency defects (lexer and dumper drop bytes when a buffer growth fails) are listed as known findings and recognised only when jansson alone reproduces them; leaks under OOM are counted, not flagged."),
+    "C19": ("exploration", "DESIGN.md 4/C19", H + "; callback-free twin oracle under the simulated clock", "Callback programs of header/claim set, replace, delete, delete-all biased to the claim the token fails on x claim-check configurations x tokens failing exactly one check at the simulated instant; verdict with the callback must equal the verdict without; non-zero return must fail; callback-selected inadmissible key/alg pairs must fail.", "Programs are sequences of the public jwt_header_*/jwt_claim_* calls only."),
+})
+
 NA_REASONS = {
     "C11": "Pure function of one byte string (base64url codec): no schedule, clock, fault or history is involved and the property's own quantifier is exhaustive enumeration, which deterministic simulation does not do; see DESIGN.md section 7.",
     "C20": "The CLI tools are separate executables whose behaviour is a function of argv, stdin and key files; they run outside the simulator and have no schedule, timer, retry or fault surface; driving them with generated arguments would be black-box CLI testing, a different technique; see DESIGN.md section 7.",
